@@ -54,6 +54,23 @@
   updateTaskStatus over Model/TaskIds.lean: the two ids are copied under a nil guard each
   (`idGuardsInCode`, tied to go/ast facts), so what an update omits never takes the lock off a task.
 
+  A deployment may fail in acquireTasks' OWN TAIL, after everything was launched: the lock loop
+  (`taskPtr.SetParent(descriptor.TaskRole); if !taskPtr.IsLocked() { … deploymentSuccess = false }`) meets a new
+  task that cannot be locked because its placement data is incomplete — the offer it was launched from carried no
+  hostname (`SettleOracle.blank`: mesos.Offer.Hostname is a plain string field, it arrives empty; the core places on
+  the attribute machine_id and on resources, never on the hostname). "Cannot be locked" is Model/TaskIds
+  `Fields.locked` on the task's identity fields with the parent set (`lockFailure`). Then the block
+  `if !deploymentSuccess` un-parents EVERY task of `deployedTasks` — the ones that did lock included —, all of
+  them are appended to the roster, and no role gets its task (`SetTask` happens on success only): the
+  environment's workflow references nothing, the DEPLOY transition waits for its timeout, and the failure tail
+  of the creation (GO_ERROR, forced teardown, KillTasks of the environment's tasks: none) releases and kills
+  nothing — the tasks sit in the roster unowned and unlocked and fall to the next cleanup (`acquireUnlocked`,
+  the branch of `createSettle` / `settleDeploy` before `acquire`). `Cfg.detachOnSpot` is the variant that is NOT
+  the code: only the task that cannot be locked is detached (on the spot), its siblings keep the parent role of
+  an environment that is about to disappear (go/ast tie `C06_lock_failure_unparents_all_is_code`).
+  Offers without hostname are admitted without reuseUnlockedTasks only (`blankHosts`; the reuse loop of the
+  model does not consider a roster entry without hostname: under that restriction there is none).
+
   Not modelled here: reconciliation (C18), automatic environments, the kill
   acknowledgements' blocking (an accepted KILL is answered at once: fairness premise "the
   master eventually reports killed tasks"), the acknowledgement KillTasks registers for a task
@@ -82,10 +99,16 @@ structure Cfg where
   /-- TeardownEnvironment: the second ReleaseTasks message is assigned inside the loop over the
       DESTROY weights, from the list already filtered for ACTIVE roles. -/
   lastWeightOnly : Bool
+  /-- NOT the code, in any version: acquireTasks' lock loop detaches a newly deployed task that cannot be
+      locked on the spot, and the block `if !deploymentSuccess` no longer un-parents the deployed tasks — the
+      siblings that did lock keep their parent role although the deployment is declared failed. (The code, as
+      it is and as it was: the failure block un-parents every task of `deployedTasks`.) -/
+  detachOnSpot : Bool := false
   deriving DecidableEq, Repr, Inhabited
 
 /-- The code as it is: Lock/Unlock of deployMu paired, the entry removed in the critical section
-    that looks it up, the DESTROY hook tasks of all weights released together. -/
+    that looks it up, the DESTROY hook tasks of all weights released together (and, as ever, a deployment
+    that fails in the lock loop un-parents everything it launched). -/
 def codeCfg : Cfg := { unlockUnpaired := false, lateDelete := false, lastWeightOnly := false }
 
 /-- The code as it was before the three repairs. -/
@@ -140,6 +163,11 @@ def Task.owner (t : Task) : Option EnvId := if t.isLocked then t.parent else non
 
 /-- task.go `IsClaimable`. -/
 def Task.claimable (t : Task) : Bool := !t.isLocked && t.active && decide (t.state = .STANDBY)
+
+/-- The identity fields of a roster entry, for Model/TaskIds (`Fields.locked` is task.go `isLocked`). -/
+def Task.fields (t : Task) : TaskIds.Fields :=
+  { hostname := t.hostOk, agentId := t.agent, offerId := t.offer, taskId := true, executorId := t.executor,
+    parent := t.parent.isSome }
 
 /-- One row of the Mesos master's task table. -/
 structure MTask where
@@ -611,11 +639,14 @@ def createInsert (s : State) (k : EnvId) : State × Res :=
                                    calls := callCount p.spec, pending := 0, tearing := false }] }, .noop)
 
 /-- acquireTasks' reuse loop: for every descriptor the first claimable roster
-    task of the same class on the wanted host that no earlier descriptor took. -/
+    task of the same class on the wanted host that no earlier descriptor took. (`t.hostOk`: a roster
+    entry without hostname is not considered. The model admits offers without hostname only when
+    reuseUnlockedTasks is off — `blankHosts` —, so wherever this loop runs the conjunct is true of every
+    entry; it spares the invariant a case distinction.) -/
 def claimLoop (roster : List Task) : List (Nat × RoleSpec) → List (Nat × TaskId) → List (Nat × TaskId)
   | [], acc => acc
   | (i, r) :: rest, acc =>
-    match roster.find? (fun t => t.claimable && decide (t.cls = r.cls) && decide (t.host = r.host)
+    match roster.find? (fun t => t.claimable && t.hostOk && decide (t.cls = r.cls) && decide (t.host = r.host)
                           && decide (t.id ∉ acc.map (·.2))) with
     | some t => claimLoop roster rest (acc ++ [(i, t.id)])
     | none => claimLoop roster rest acc
@@ -648,6 +679,7 @@ structure SettleOracle where
   late : Bool := false                       -- rendezvous race in the failure path's teardown
   hookFails : List TaskId := []              -- hook tasks answering TriggerHook with an error (failure path's teardown)
   lost : List (Host × Bool) := []            -- executors / agents (`true`) lost while the tasks were being configured
+  blank : List Host := []                    -- hosts whose OFFER carried no hostname in this deployment
   deriving Repr, Inhabited
 
 def launchOf (o : SettleOracle) (i : Nat) : LaunchOut := (o.launches.lookup i).getD {}
@@ -656,6 +688,45 @@ def launchOf (o : SettleOracle) (i : Nat) : LaunchOut := (o.launches.lookup i).g
 def assignNew : List (Nat × RoleSpec) → TaskId → List (Nat × RoleSpec × TaskId)
   | [], _ => []
   | (i, r) :: rest, n => (i, r, n) :: assignNew rest (n + 1)
+
+/-! ### a deployment that fails in acquireTasks' own tail: a launched task that cannot be locked -/
+
+/-- The hosts whose offer carried no hostname in this deployment. Admitted without reuseUnlockedTasks only
+    (a restriction of the modelled inputs: with reuse a task that can never be locked would be a reuse
+    candidate for ever). -/
+def blankHosts (s : State) (o : SettleOracle) : List Host := if s.reuse then [] else o.blank
+
+/-- The task records resourceOffers hands back for the descriptors it launched, as acquireTasks' lock loop sees
+    them after `taskPtr.SetParent(descriptor.TaskRole)`: newTaskForMesosOffer copies hostname, agent id and offer id
+    from the offer (the executor id is the offer's or freshly made, the task id is fresh) — an offer without
+    hostname leaves `hostOk` false. `active`: whether the core has processed the task's TASK_RUNNING when the
+    roster is read next (the deployment never succeeds here). -/
+def launchedTasks (s : State) (k : EnvId) (toRun : List (Nat × RoleSpec)) (o : SettleOracle) : List Task :=
+  (assignNew toRun s.nextTask).map (fun x =>
+    { id := x.2.2, cls := x.2.1.cls, host := x.2.1.host, hostOk := decide (x.2.1.host ∉ blankHosts s o),
+      agent := true, offer := true, executor := true, parent := some k,
+      active := (launchOf o x.1).active && decide ((launchOf o x.1).mesos = .running),
+      state := if (launchOf o x.1).mesos = .terminal then .ERROR else .STANDBY })
+
+/-- The lock loop's verdict: `!taskPtr.IsLocked()` for some newly deployed task (task.go `isLocked` =
+    Model/TaskIds `Fields.locked` on the identity fields, parent set). -/
+def lockFailure (ts : List Task) : Bool := ts.any (fun t => !t.fields.locked)
+
+/-- One deployed task after the block `if !deploymentSuccess { for taskPtr := range deployedTasks {
+    taskPtr.SetParent(nil) … } }`: un-parented, whether it had locked or not. (`detachOnSpot`, NOT the code: only
+    the task that cannot be locked loses its parent.) -/
+def Task.afterLockFailure (c : Cfg) (t : Task) : Task :=
+  if c.detachOnSpot && t.fields.locked then t else { t with parent := none }
+
+/-- acquireTasks when its lock loop failed: every requested task was launched (the master has a row for each),
+    all of them are un-parented and appended to the roster ("Finally, we write to the roster"), no role gets
+    its task (`SetTask` on success only) — the environment references nothing — and the roster tasks
+    earmarked for reuse are not touched. -/
+def acquireUnlocked (s : State) (k : EnvId) (toRun : List (Nat × RoleSpec)) (o : SettleOracle) : State :=
+  { s with roster := s.roster ++ (launchedTasks s k toRun o).map (Task.afterLockFailure s.cfg),
+           master := s.master ++ (assignNew toRun s.nextTask).map (fun x =>
+             ({ id := x.2.2, label := k, role := x.1, host := x.2.1.host, mesos := (launchOf o x.1).mesos, killed := false } : MTask)),
+           nextTask := s.nextTask + (assignNew toRun s.nextTask).length }
 
 /-- The failure tail of CreateEnvironment: GO_ERROR, forced teardown (its
     result is dropped), KillTasks on the environment's tasks. -/
@@ -732,6 +803,11 @@ def createSettle (s : State) (k : EnvId) (o : SettleOracle) : State × Res :=
       -- (the code as it is unlocks inside the block that locks: nothing to run, nothing locked)
       ({ s with crashed := true }, .crash)
     else
+    if lockFailure (launchedTasks s k (descs.filter (fun d => decide (d.1 ∉ claims.map (·.1)))) o) then
+      -- everything was launched, but a new task cannot be locked: acquireTasks fails in its own tail, the roles get
+      -- nothing, DEPLOY times out; the failure tail finds no task of the environment to release or kill
+      createFail (acquireUnlocked s k (descs.filter (fun d => decide (d.1 ∉ claims.map (·.1)))) o) k [] o.late .errDeploy
+    else
     let a := acquire s k p.spec claims o
     -- a claimed task gets its parent role and the role gets the task, but the role's status stays INACTIVE
     -- (only a Mesos status update sets it, and none comes for a task that is already running): DEPLOY waits for
@@ -772,11 +848,6 @@ def Task.onStatus (g : TaskIds.Guards) (u : StatusUpd) (t : Task) : Task :=
     { t with active := true, agent := TaskIds.copyId g.agent t.agent u.agent,
              executor := TaskIds.copyId g.executor t.executor u.executor }
   else t
-
-/-- The identity fields of a roster entry, for Model/TaskIds. -/
-def Task.fields (t : Task) : TaskIds.Fields :=
-  { hostname := t.hostOk, agentId := t.agent, offerId := t.offer, taskId := true, executorId := t.executor,
-    parent := t.parent.isSome }
 
 def StatusUpd.kind (u : StatusUpd) : TaskIds.Kind := if u.running then .running else .other
 def StatusUpd.carried (u : StatusUpd) : TaskIds.Carried := { agent := u.agent, executor := u.executor }
@@ -971,6 +1042,10 @@ def settleDeploy (s : State) (k : EnvId) (o : SettleOracle) : State × Option Mi
     let claims := claimsOf s p
     if s.reuse && s.cfg.unlockUnpaired && (descs.filter (fun d => decide (d.1 ∉ claims.map (·.1)))).isEmpty then
       ({ s with crashed := true }, none, .crash)
+    else
+    if lockFailure (launchedTasks s k (descs.filter (fun d => decide (d.1 ∉ claims.map (·.1)))) o) then
+      (acquireUnlocked s k (descs.filter (fun d => decide (d.1 ∉ claims.map (·.1)))) o,
+       some { k := k, spec := p.spec, ids := [], fails := [], late := o.late, hf := [], lost := o.lost, res := .errDeploy }, .noop)
     else
     let a := acquire s k p.spec claims o
     (a.s, some { k := k, spec := p.spec, ids := a.ids,
